@@ -13,7 +13,7 @@
     extents), state row [i], input block [i mod nIn], output rows of cell [i]. *)
 From Coq Require Import List Arith ZArith Permutation.
 From OW Require Import Base.Interleave Wrapper.Spec Wrapper.Run Wrapper.Views Wrapper.CellFacts
-  Wrapper.RunProofs Wrapper.InitProofs Wrapper.Examples Gen.WrapperSpecs.
+  Wrapper.RunProofs Wrapper.ParamBounds Wrapper.FindDims Wrapper.InitProofs Wrapper.Examples Gen.WrapperSpecs.
 Import ListNotations.
 Local Open Scope nat_scope.
 
@@ -67,6 +67,28 @@ Section C04.
       (forall a, ~ cell_written V sp T N S oK oT st_of a -> m' a = m0 a) /\
       (forall o, m' (BI, o) = m0 (BI, o)) /\ (forall o, m' (BP, o) = m0 (BP, o)).
   Proof. exact (run_cellwise V toZ K sp). Qed.
+
+  (** The hypothesis "the cell's parameter reads are inside the matrix" of
+      [all_ok] follows from the natural conditions: the matrix has at least
+      [total_rows] rows (blocks sized by the max extents) and every table is
+      sliced with own extents within the max extents. *)
+  Theorem C04_params_in_bounds_intro : forall nP nSets maxd (m : mem addr V) i,
+    1 <= nSets -> total_rows maxd (s_params sp) <= nP ->
+    own_dims_ok V toZ maxd (fun r => m (BP, r * nSets + i mod nSets)) 0 [] (s_params sp) ->
+    params_in_bounds V toZ sp nP nSets maxd m i.
+  Proof. exact (fun nP nSets maxd m i => params_in_bounds_intro V toZ sp nP nSets maxd m i). Qed.
+
+  (** ... and with maxd := FindDimensions(P) (NaN-free matrix: Go's [>] and
+      [int(.)] are order-compatible) every cell's own extents are covered. *)
+  Theorem C04_find_dimensions_covers : forall (gtb : V -> V -> bool),
+    (forall a b, gtb a b = true -> (toZ b <= toZ a)%Z) ->
+    (forall a b, gtb a b = false -> (toZ a <= toZ b)%Z) ->
+    forall nIn nI T N S oN oK oT nP nSets (m : mem addr V) maxd i,
+    1 <= nSets -> dims_declared [] (s_params sp) = true -> NoDup (dim_names (s_params sp)) ->
+    find_dims_from V toZ gtb (mk_shapes nIn nI T N S oN oK oT nP nSets) m nSets 0 [] (s_params sp) = Some maxd ->
+    total_rows maxd (s_params sp) <= nP ->
+    params_in_bounds V toZ sp nP nSets maxd m i.
+  Proof. exact (fun gtb G1 G2 => find_dimensions_covers V toZ gtb G1 G2 sp). Qed.
 
   (** Any order of the cells gives the same memory. *)
   Theorem C04_run_order_irrelevant : forall nIn nI T N S oN oK oT nP nSets maxd (m0 : mem addr V) outs_of st_of,
@@ -123,6 +145,8 @@ End C04.
 Print Assumptions C04_apply_parameters_decode.
 Print Assumptions C04_parameter_rows.
 Print Assumptions C04_run_cellwise.
+Print Assumptions C04_params_in_bounds_intro.
+Print Assumptions C04_find_dimensions_covers.
 Print Assumptions C04_run_order_irrelevant.
 Print Assumptions C04_run_equals_singles.
 Print Assumptions C04_run_cell_some_kernel_ok.
@@ -147,6 +171,8 @@ Print Assumptions C04_initialise_states_cellwise_refuted.
 Example C04_all_specs_supported :
   wrapper_specs_unsupported = [] /\ forallb spec_supported wrapper_specs = true /\ length wrapper_specs = 41.
 Proof. exact C04_specs_check. Qed.
+Example C04_all_specs_dim_names_distinct : Forall (fun s => NoDup (dim_names (s_params s))) wrapper_specs.
+Proof. exact C04_specs_dim_names_nodup. Qed.
 
 (** Non-vacuity: a concrete 3-cell run (2 parameter sets, 2 input blocks, 2
     steps, padded outputs) of a one-state model whose kernel adds the parameter
